@@ -460,7 +460,11 @@ def bind_oracle(e: ast.Call):
     """What Python's constructor binding does with this call: ('ok', [(name, value_dump)...]) in
     parameter order, ('raise', msg), or ('dynamic', None) for *args / **kw."""
     cls = e.func.value
-    if any(isinstance(a, ast.Starred) for a in e.args) or any(k.arg is None for k in e.keywords):
+    if any(isinstance(a, ast.Starred) for a in e.args):
+        # Python binds a starred argument by the length of the sequence, at run time: no field it could be bound to statically.
+        # The lowering must refuse (F58) - it used to bind the Starred node to ONE field ({'x': *vals})
+        return ("raise", "a starred argument cannot be bound to a field statically")
+    if any(k.arg is None for k in e.keywords):
         return ("dynamic", None)
     names = [k.arg for k in e.keywords]
     if len(set(names)) != len(names):
@@ -898,8 +902,8 @@ def spec_vs_python(ctx, calls):
     for e, sp, cv in zip(calls, spec, conv):
         ctx.evaluations += 1
         kind, want = bind_oracle(e)
-        if kind == "dynamic":
-            continue
+        if kind == "dynamic" or any(isinstance(a, ast.Starred) for a in e.args):
+            continue          # starred calls are refused before any binding (lower_call_with): not a statement about bind_spec
         if kind == "raise":
             ok = sp.startswith("EXC ValueError")
         else:
